@@ -120,7 +120,7 @@ func isMapped(addr uintptr) bool {
 }
 
 // drainCache empties the page cache and unmaps the pages; returns how many.
-func drainCache(a *memory.Allocator, pageSize uintptr) int {
+func drainCache(a *memory.Allocator, pageSize uintptr, m *mapped) int {
 	ch := cacheChan(a)
 	if ch == nil {
 		return 0
@@ -129,8 +129,11 @@ func drainCache(a *memory.Allocator, pageSize uintptr) int {
 	for {
 		select {
 		case p := <-ch:
-			if p != 0 && isMapped(p) {
+			if p != 0 {
 				munmap(p, pageSize)
+				if m != nil {
+					m.unmapped(p, pageSize)
+				}
 			}
 			n++
 		default:
@@ -171,7 +174,7 @@ func newPristine(base int, l Layout) (*memory.Allocator, error) {
 	if !waitQuiet(base) {
 		return nil, fmt.Errorf("refill goroutine did not finish")
 	}
-	n := drainCache(a, l.PageSize)
+	n := drainCache(a, l.PageSize, nil)
 	a.Bytes.Add(-int64(n) * int64(l.PageSize))
 	if a.Bytes.Load() != 0 || a.Allocs.Load() != 0 || a.SharedMmaps.Load() != 0 || a.PrivateMmaps.Load() != 0 {
 		return nil, fmt.Errorf("pristine allocator has non-zero counters: Bytes=%d after draining %d cached pages", a.Bytes.Load(), n)
@@ -226,10 +229,10 @@ func newResetter(base int, l Layout) *resetter {
 	return r
 }
 
-// reset restores a to the pristine state (its pages must have been unmapped by
-// the caller already).
-func (r *resetter) reset(a *memory.Allocator) {
-	drainCache(a, r.layout.PageSize)
+// reset restores a to the pristine state; the caller unmaps the execution's
+// remaining pages (m.release) right after.
+func (r *resetter) reset(a *memory.Allocator, m *mapped) {
+	drainCache(a, r.layout.PageSize, m)
 	dv, sv := reflect.ValueOf(a).Elem(), reflect.ValueOf(r.tmpl).Elem()
 	for _, f := range r.plan {
 		f(dv, sv)
